@@ -55,7 +55,7 @@ TRUSTED = [
 ]
 RULE = (
     "op trees built from generated SQLAlchemy schema objects the way autogenerate builds them (create/drop table, add/drop/alter column, "
-    "create/drop index incl. expressions (text, func, desc, literal_column, sa.column, labels, cast, collate, mixed with plain columns), unique/fk constraints, table comments; ModifyTableOps containers); names from identifier classes "
+    "create/drop index incl. expressions (text, func, desc, literal_column, sa.column, cast, collate, operator expressions a+b / a||b / (a+b)*2 / -a / a->>k / and_(..), labelled or not, postgresql_ops keyed by column key or label, mixed with plain columns), unique/fk constraints, table comments; ModifyTableOps containers); names from identifier classes "
     "(plain, mixed case, reserved, space, quotes, backslash, percent, newline/tab, non-ASCII incl. non-printable, dotted); types with arguments; "
     "server defaults str/text/func/identity/computed; naming_convention on/off; batch on/off; schema on/off; x 5 dialects. "
     "A case is non-trivial when it renders at least one operation; distinct by (op kinds, rendered text)"
@@ -355,6 +355,35 @@ def rule_fk_metadata_schema(spec, ospecs, res):
     return None
 
 
+def rule_pg_ops_column_key(spec, ospecs, res):
+    # dialect kwargs are rendered verbatim: postgresql_ops keyed by Column.key (SQLAlchemy matches it against the member's
+    # .key) stays keyed by the key while the index columns are rendered by *name*: in the executed code nothing matches
+    # and the operator class is lost
+    if res["dialect"] != "postgresql":
+        return None
+    pairs = []
+    for o in ospecs:
+        if o["kind"] != "create_index":
+            continue
+        t = spec["tables"][o["table"]]
+        ix = t["indexes"][o["index"]]
+        pops = (ix.get("kw") or {}).get("postgresql_ops") or {}
+        keyed = {c["name"] for c in t["columns"] if c.get("key")}
+        for e in ix["elems"]:
+            if e.get("col") in keyed and e["col"] in pops:
+                pairs.append((e["col"], pops[e["col"]]))
+    if not pairs:
+        return None
+
+    def n(s):
+        for name, opclass in pairs:
+            for nm in sorted({x for v in (name, name.replace("%", "%%"), name.replace("\t", "    ")) for x in (v, v.replace('"', '""'))}, key=len, reverse=True):
+                s = re.sub(r"((?:\"%s\"|(?<![\w\"])%s)) %s\b" % (re.escape(nm), re.escape(nm), re.escape(opclass)), "\\1", s)
+        return s
+
+    return n
+
+
 # exec raises / invoke raises: (finding id, predicate)
 def err_exclude_expression(spec, ospecs, res):
     # CreateExcludeConstraintOp.to_constraint appends Column(name, NULLTYPE) for every element: name is None for an expression
@@ -410,6 +439,7 @@ RULES = [
     ("C08-N7-pg-drop-table-enum-type", rule_pg_drop_enum),
     ("C08-N12-column-index-unique-flag-not-rendered", rule_column_flag),
     ("C08-N16-fk-target-key-emitted-by-invoke", rule_fk_target_key),
+    ("C08-N18-postgresql-ops-keyed-by-column-key-lost", rule_pg_ops_column_key),
     ("C08-N17-fk-target-loses-metadata-schema-on-invoke", rule_fk_metadata_schema),
     ("C08-N6-add-column-primary-key-not-rendered", rule_pk_add_column),
     ("C08-N8-quote-flag-dropped", rule_quote_flag),
